@@ -118,7 +118,8 @@ CHECKS["C06"] = dict(
          "directory = sum of children, root = summary, prune drops exactly unused files, used/unused partition) on that "
          "attribution; the real `codebasin -R summary`, cbi-tree (--prune, -L) and cbi-cov are run on the same "
          "materialised tree (with symlinks and a zero-platform analysis) and their parsed outputs compared with the "
-         "specification's expectation and with get_setmap. Sampled (simulation), not exhaustive.",
+         "specification's expectation and with get_setmap. Exhaustive over the small profile c06s (512 scenarios), sampled "
+         "(simulation) beyond it.",
     design="3/C06")
 
 CHECKS["C16"] = dict(
@@ -140,7 +141,8 @@ CHECKS["C10"] = dict(
          "generated scenario the real pipeline is run with exclude lists matching every single file, every directory, all "
          "headers (with and without a negated re-inclusion) and random subsets, and the per-line attribution of every "
          "remaining file, get_setmap and the enumerated code base are compared with the no-exclusion expectation; -x and "
-         "[codebase] exclude are compared through codebasin, cbi-tree and cbi-cov. Sampled, not exhaustive.",
+         "[codebase] exclude are compared through codebasin, cbi-tree and cbi-cov. Exhaustive over the small profile c06s "
+         "(512 scenarios, every subset of files excluded in the model), sampled beyond it.",
     design="3/C10")
 
 CHECKS["C15"] = dict(
@@ -163,7 +165,8 @@ CHECKS["C18"] = dict(
          "every include warning names a reached directive (the reference has no memo that could swallow a repeat); for "
          "each simulated scenario the multiset of issued include warnings (kind, file, line, name) and the counts of the "
          "other categories are compared with the specification in-process, and cbi.log plus the closing totals through "
-         "the CLI. Sampled, not exhaustive; message formats are parsed with the regular expressions listed in DESIGN A.2.",
+         "the CLI. Exhaustive over the small profile c18s (48 scenarios: one computed include evaluated twice with its macro "
+         "redefined in between), sampled beyond it; message formats are parsed with the regular expressions listed in DESIGN A.2.",
     design="3/C18")
 
 CHECKS["C11"] = dict(
